@@ -18,11 +18,11 @@ CONFIG = {"quick": {"shards": 8, "timeout_s": 600, "cases": 560},
           "thorough": {"shards": 16, "timeout_s": 3000, "cases": 12000}}
 REQUIRED_COUNTERS = ["fixed_pressure_ext_grid", "fixed_pressure_several", "fixed_pressure_circ_pump",
                      "press_control_setpoints", "press_control_setpoints_remote", "prescribed_flow_flow_control",
-                     "prescribed_flow_circ_pump_mass", "lift_circ_pump_pressure", "compressor_forward",
+                     "prescribed_flow_circ_pump_mass", "press_control_setpoints_in_reduced_net", "lift_circ_pump_pressure", "compressor_forward",
                      "pump_curve_forward", "pump_lift_momentum", "nets_with_standby_machines", "load_reports_sink", "load_reports_source",
                      "load_reports_mass_storage", "transient_steps_monitored"]
 FEATS = [("pump", "multi_pump", "multi_grid", "mass_storage"), ("compressor", "multi_pump", "multi_grid"), ("flow_control", "valves", "mass_storage"),
-         ("press_control", "multi_grid"), ("pump", "compressor", "multi_pump", "press_control", "flow_control", "multi_grid", "mass_storage", "oos")]
+         ("press_control", "multi_grid", "islands"), ("pump", "compressor", "multi_pump", "press_control", "flow_control", "multi_grid", "mass_storage", "oos")]
 FLUIDS = ["water", "lgas", "water", "hydrogen", "water", "hgas", "methane"]
 
 
@@ -166,7 +166,10 @@ def run_case(case, ctx):
     if outcome == "ok":
         if any(e["name"].endswith("_standby") for e in spec["elements"]):
             obs.count("nets_with_standby_machines")
+        before = obs.counters.get("press_control_setpoints", 0)
         mon_c03(net, obs, opts)
+        if obs.counters.get("press_control_setpoints", 0) > before and bool(net.res_junction.p_bar.isna().any()):
+            obs.count("press_control_setpoints_in_reduced_net")     # part of the net is outside the calculation (internal indices shift)
         judged = {k: sum(v for c, v in obs.counters.items() if c.startswith(k)) for k in KINDS}
         rec["nontrivial"] = sum(judged.values()) >= 3 and sum(1 for v in judged.values() if v) >= 2
         if rec["nontrivial"]:
